@@ -673,7 +673,8 @@ class GooFitPyChain(AmplitudeChain):
                     factor.append(
                         f'        SpinFactor("SF", SF_4Body.{spin_factor.name:37}, {structure_list})'
                     )
-        exit_ = "))\n"
+        # The trailing comma keeps this a tuple when there is a single spin factor
+        exit_ = ",))\n"
         return intro + ",\n".join(factor) + exit_
 
     def make_linefactor(self, final_states):
